@@ -65,7 +65,12 @@ def endtime(x):
         return x["endtime"]
     else:
         # length (int32) * dt (int16) can exceed int32
-        return x["time"] + x["length"].astype(np.int64) * x["dt"]
+        length = x["length"]
+        if isinstance(length, np.ndarray):
+            length = length.astype(np.int64)
+        else:
+            length = np.int64(length)
+        return x["time"] + length * x["dt"]
 
 
 # Jitting endtime needs special attention, since inspecting the dtype
